@@ -25,7 +25,7 @@ from cherab.core.laser import Laser
 from cherab.core.atomic import Line, deuterium, hydrogen, helium, carbon, neon
 from cherab.core.model import (ExcitationLine, RecombinationLine, ThermalCXLine, Bremsstrahlung, TotalRadiatedPower,
                                BeamCXLine, BeamEmissionLine, SingleRayAttenuator, GaussianLine, ZeemanTriplet,
-                               MultipletLineShape, ParametrisedZeemanTriplet, StarkBroadenedLine)
+                               MultipletLineShape, ParametrisedZeemanTriplet, StarkBroadenedLine, ZeemanMultiplet)
 from cherab.core.model.laser import (SeldenMatobaThomsonSpectrum, ConstantSpectrum, GaussianSpectrum, UniformEnergyDensity,
                                      ConstantBivariateGaussian)
 
@@ -34,6 +34,7 @@ from ..machine import Machine
 from ..seams.provider import SimAtomicData, SimGaunt, _u
 from cherab.core.math.integrators import GaussianQuadrature
 from ..seams.simfunc import SimFault, SimInterrupt
+from ..seams.pristine import PristineServer
 from .c18_laser import PROFILE_ATTRS as LP_ATTRS, SPECTRUM_ATTRS as LS_ATTRS, construct as laser_construct
 
 EL = {"H": hydrogen, "D": deuterium, "He": helium, "C": carbon, "Ne": neon}
@@ -129,15 +130,27 @@ def gen_line(rng, species):
 
 def gen_lineshape(rng):
     u = rng.random()
-    if u < 0.5:
+    if u < 0.42:
         return {"cls": "gaussian"}
-    if u < 0.65:
-        return {"cls": "zeeman"}
-    if u < 0.78:
-        return {"cls": "pzeeman", "params": [round(rng.uniform(0.02, 0.2), 4), round(rng.uniform(0.0, 1.5), 3), round(rng.uniform(0.0, 1.0), 3)]}
-    if u < 0.88:
-        return {"cls": "stark", "coeffs": [round(rng.uniform(2e-3, 4e-3), 6), round(rng.uniform(0.6, 0.8), 4), round(rng.uniform(0.02, 0.04), 5)]}
-    return {"cls": "multiplet", "mult": [[round(rng.uniform(-0.3, 0.3), 3) for _ in range(2)], [0.4, 0.6]]}
+    if u < 0.54:
+        ls = {"cls": "zeeman"}
+    elif u < 0.67:
+        ls = {"cls": "pzeeman", "params": [round(rng.uniform(0.02, 0.2), 4), round(rng.uniform(0.0, 1.5), 3), round(rng.uniform(0.0, 1.0), 3)]}
+    elif u < 0.77:
+        ls = {"cls": "stark", "coeffs": [round(rng.uniform(2e-3, 4e-3), 6), round(rng.uniform(0.6, 0.8), 4), round(rng.uniform(0.02, 0.04), 5)]}
+    elif u < 0.88:
+        return {"cls": "multiplet", "mult": [[round(rng.uniform(-0.3, 0.3), 3) for _ in range(2)], [0.4, 0.6]]}
+    else:
+        ls = {"cls": "zmultiplet"}          # ZeemanMultiplet: the structure always comes from the provider
+    # round 8: the Zeeman family takes its parameters from the atomic-data provider when none are handed over (so they
+    # change with the provider), and a polarisation filter
+    if ls["cls"] in ("pzeeman", "stark") and rng.random() < 0.35:
+        ls.pop("params", None)
+        ls.pop("coeffs", None)
+    v = rng.random()
+    if v < 0.4:
+        ls["pol"] = "pi" if v < 0.2 else "sigma"
+    return ls
 
 
 def gen_plasma_model(rng, species):
@@ -588,13 +601,26 @@ def mk_line(l):
 def mk_lineshape_kw(ls):
     if ls is None or ls["cls"] == "gaussian":
         return {"lineshape": GaussianLine}
+    if ls["cls"] == "multiplet":
+        return {"lineshape": MultipletLineShape, "lineshape_args": [ls["mult"]]}
+    kw = {}
     if ls["cls"] == "zeeman":
-        return {"lineshape": ZeemanTriplet}
-    if ls["cls"] == "pzeeman":
-        return {"lineshape": ParametrisedZeemanTriplet, "lineshape_kwargs": {"line_parameters": tuple(ls["params"])}}
-    if ls["cls"] == "stark":
-        return {"lineshape": StarkBroadenedLine, "lineshape_kwargs": {"stark_model_coefficients": tuple(ls["coeffs"])}}
-    return {"lineshape": MultipletLineShape, "lineshape_args": [ls["mult"]]}
+        cls = ZeemanTriplet
+    elif ls["cls"] == "pzeeman":
+        cls = ParametrisedZeemanTriplet
+        if ls.get("params") is not None:
+            kw["line_parameters"] = tuple(ls["params"])
+    elif ls["cls"] == "stark":
+        cls = StarkBroadenedLine
+        if ls.get("coeffs") is not None:
+            kw["stark_model_coefficients"] = tuple(ls["coeffs"])
+    elif ls["cls"] == "zmultiplet":
+        cls = ZeemanMultiplet
+    else:
+        raise HarnessError(ls["cls"])
+    if ls.get("pol"):
+        kw["polarisation"] = ls["pol"]
+    return {"lineshape": cls, "lineshape_kwargs": kw} if kw else {"lineshape": cls}
 
 
 _KWREG = {}       # id(model) -> the lineshape_args / lineshape_kwargs containers the caller (this harness) handed over and keeps
@@ -616,7 +642,7 @@ def caller_edits_lineshape_containers(model):
     d = kw.get("lineshape_kwargs")
     if d:
         for key in list(d):
-            d[key] = tuple(v * 1.37 for v in d[key])
+            d[key] = {"pi": "sigma", "sigma": "no", "no": "pi"}[d[key]] if isinstance(d[key], str) else tuple(v * 1.37 for v in d[key])
         done = True
     lst = kw.get("lineshape_args")
     if lst:
@@ -857,6 +883,9 @@ class SceneMachine(Machine):
             # the same sight line observed twice with spectral windows that share the lower edge and the bin count only
             rays[5] = dict(rays[4], max=560.0 if rays[4]["max"] == 700.0 else 700.0)
         cfg = {"spec": spec, "fault_mode": fault_mode, "rays": rays}
+        # swarm: the scene "built from scratch" is built in a pristine process image (seams/pristine.py) in a quarter of the
+        # runs, so that process-global state the subject's history left behind cannot reach it
+        cfg["pristine"] = rng.random() < 0.25
         # swarm: subset of mutator kinds enabled in this run
         kinds = self._kinds(spec)
         enabled = rng.sample(kinds, rng.randint(2, min(len(kinds), 9)))
@@ -998,7 +1027,8 @@ class SceneMachine(Machine):
 
     def _gen_missing(self, rng):
         name = rng.choice(["impact_excitation_pec", "recombination_pec", "thermal_cx_pec", "beam_cx_pec", "beam_stopping_rate",
-                           "beam_population_rate", "beam_emission_pec", "wavelength", "line_radiated_power_rate"])
+                           "beam_population_rate", "beam_emission_pec", "wavelength", "line_radiated_power_rate",
+                           "zeeman_structure", "zeeman_triplet_parameters", "stark_model_coefficients"])
         el = rng.choice(["D", "He", "C", "Ne"])
         return [name, el] if name not in ("wavelength",) else [name, el]
 
@@ -1304,8 +1334,18 @@ class SceneMachine(Machine):
         if how == "fault":
             c.fault_fired += 1
             return how, val
-        twin = build_scene(c.spec)
-        h2, v2 = self._observe(c, twin, c.spec, channel, which)
+        if c.pristine is not None:
+            h2, v2 = c.pristine.call((c.spec, channel, which))
+            env.probe("pristine_twin")
+            if h2 == "harness":
+                raise HarnessError("pristine twin: " + str(v2))
+            if h2 == "crashed":
+                raise Violation("crash-in-rebuilt-scene", channel, "%s: the scene rebuilt from scratch in a pristine process died from signal %s" % (after, v2))
+            if h2 == "libexc":
+                raise Violation("unexpected-exception", channel, "%s: building the scene from scratch raised inside the library: %s" % (after, v2))
+        else:
+            twin = build_scene(c.spec)
+            h2, v2 = self._observe(c, twin, c.spec, channel, which)
         if h2 == "fault":
             raise HarnessError("twin hit an injected fault")
         if how != h2:
@@ -1328,9 +1368,27 @@ class SceneMachine(Machine):
         return how, val
 
     # ------------------------------------------------------------------ lifecycle
+    def _twin_job(self, c, request):
+        """Runs in a grandchild of the pristine server: build the twin, observe one channel."""
+        spec, channel, which = request
+        try:
+            twin = build_scene(spec)
+        except HarnessError:
+            raise
+        except Exception as e:
+            import traceback
+            tb = traceback.extract_tb(e.__traceback__)
+            inner = tb[-1].filename.replace("\\", "/") if tb else ""
+            if "cherab/" in inner and "/verif/" not in inner:
+                return "libexc", "%s: %s" % (type(e).__name__, "".join(traceback.format_exception(e))[-1200:])
+            raise
+        return self._observe(c, twin, spec, channel, which)
+
     def start(self, cfg, env):
         c = Ctx()
         c.cfg = cfg
+        # before anything of this run exists: the server process keeps the image every rebuilt scene starts from
+        c.pristine = PristineServer(lambda request: self._twin_job(c, request)) if cfg.get("pristine") else None
         c.spec = copy.deepcopy(cfg["spec"])
         c.scene = build_scene(c.spec, subject=True)
         c.kept = []
@@ -1468,6 +1526,12 @@ class SceneMachine(Machine):
         c.scene.fault_at.clear()
         c.scene.pfault_at.clear()
         self._full_check(c, env, "finish")
+        if c.pristine is not None:
+            c.pristine.close()
+        for prov in c.scene.providers:           # reach: which provider accessors the subject's history exercised
+            for name in ("zeeman_structure", "zeeman_triplet_parameters", "stark_model_coefficients"):
+                if prov.by_name.get(name):
+                    env.probe("provider_call." + name, prov.by_name[name])
 
     # ------------------------------------------------------------------ mutators (public API + specification in lock-step)
     def _mutate(self, c, op, env):
